@@ -520,7 +520,7 @@ func runC17(c *Case) {
 				c.Fail("CH2", "client receive loop blocked: "+leakSig(st), "episode %d: 4 x timeout after the burst the client's receive goroutine is still blocked outside its select loop, so no further message is processed:\n%s", ep, st)
 				break episodes
 			}
-			if w.rtr.Stuck() && !clientAborted() {
+			if !ended && w.rtr.Stuck() && !clientAborted() { // (after the router itself ended the session nobody takes its late replies)
 				c.Fail("CH2", "client stopped taking messages from the router", "episode %d: a message could not be handed to the client for a virtual hour\n%s", ep, w.rtr.StuckInfo())
 				break episodes
 			}
